@@ -445,6 +445,21 @@ def dispatch (tbl : DbTable) (line : String) : String :=
         (d', acc.2 ++ [d'.md.show])) (d0, [])
       let fin := Recovery.run d none
       s!"M {",".intercalate trace} F {fin.dir.md.show} {if fin.answers == some true then "ANSWERS-FRESH" else "ANSWERS-DIFFER"}"
+  | ["refcheck"] =>
+    -- every unit-name literal and every prefix literal of the extracted tables against the reference
+    let names := (Generated.unitsOnly ++ Generated.combined).filterMap fun (lit, act) =>
+      match act with
+      | .unit k bias => some s!"{hexEncode lit}={Spec.UnitRef.checkName lit k bias}"
+      | _ => none
+    let pfx := Generated.combined.filterMap fun (lit, act) =>
+      match act with
+      | .pfx p _ => some s!"{hexEncode lit}={if Spec.UnitRef.refPrefix lit == some p then "OK" else "BAD prefix"}"
+      | _ => none
+    "F " ++ ";".intercalate (names ++ pfx)
+  | ["readings", h] =>
+    let w := hexDecode h
+    let rs := (Spec.Words.readings (w.length + 1) w).filterMap Spec.Words.compoundOf
+    "G " ++ (if rs.isEmpty then "NONE" else " ".intercalate (rs.map unitCanon).eraseDups)
   | ["vocab"] => cmdVocab
   | ["word", h] => cmdWord (hexDecode h)
   | ["tree", h] => cmdTree (hexDecode h) false ++ "\t" ++ specTree (hexDecode h)
